@@ -39,6 +39,8 @@ LEN_CHANGERS = {"set_len", "drain", "clear", "truncate", "push", "pop", "insert"
                 "resize_with", "append", "retain", "retain_mut", "split_off", "swap_remove", "dedup", "dedup_by", "dedup_by_key", "extend_from_within",
                 "splice", "push_within_capacity", "extract_if"}
 POST_STATE_UNWIND = {"clear", "truncate"}          # they lower the length before dropping elements
+# they run caller code (an iterator, Clone, a predicate) while the length is part-way changed: a panic there leaves "some other length"
+MIDWAY_UNWIND = {"extend", "extend_from_slice", "extend_from_within", "resize", "resize_with", "retain", "retain_mut", "dedup_by", "dedup_by_key", "splice", "extract_if"}
 RAW_MOVES = ("core::ptr::read", "core::ptr::copy", "core::ptr::copy_nonoverlapping", "core::ptr::write", "core::ptr::read_unaligned",
              "core::ptr::write_unaligned", "core::mem::transmute_copy", "core::ptr::read_volatile", "core::ptr::write_volatile",
              "core::ptr::mut_ptr::<impl *mut T>::read", "core::ptr::mut_ptr::<impl *mut T>::write", "core::ptr::const_ptr::<impl *const T>::read",
@@ -80,6 +82,13 @@ class Ctx:
             if b.name == "drop" and b.impl_trait and b.trait_head == "Drop":
                 self.drop_of[_adt_path(b.impl_self)] = b
         self.summ = {}            # (body id, entry) -> Fn
+        # guard types that hold `&mut Vec<T>` (a reborrow of the array's buffer) and act on it in their destructor
+        self.holders = {}         # adt path -> index of the `&mut Vec` field
+        self.live_holders = set() # those of them that some function builds around the array's buffer
+        for a in f.adts:
+            for i, fl in enumerate(a["fields"]):
+                if re.match(r"^&('\S+ )?mut alloc::vec::Vec<", norm_ty(fl["ty"] if isinstance(fl.get("ty"), str) else str(fl.get("ty")))):
+                    self.holders[norm_ty(a["id"])] = i
         self.helpers = set()      # ids of non-exported shape writers: judged at their call sites, not on their own
         self.entry_of_adt = {}    # adt path -> set of states at its construction sites
 
@@ -172,6 +181,15 @@ class Ctx:
         return False
 
 
+def _init_holders(fnx, cx, body):
+    """locals that are guards holding the buffer; in the destructor of such a guard type, `self` is one"""
+    fnx.holder_locals = {}
+    if body.name == "drop" and body.impl_trait and body.trait_head == "Drop" and _adt_path(body.impl_self or "") in cx.holders:
+        # only when some shape writer actually builds this guard around the array's buffer
+        if _adt_path(body.impl_self) in getattr(cx, "live_holders", set()):
+            fnx.holder_locals[1] = cx.holders[_adt_path(body.impl_self)]
+
+
 def _adt_path(ty):
     t = norm_ty(ty)
     while True:
@@ -206,6 +224,7 @@ class Fn:
         b = body
         self.toodee_locals = {i for i, ty in enumerate(b.locals) if re.match(r"^&('\S+ )?mut %s<" % re.escape(cx.toodee_path), norm_ty(ty).replace("&mut ", "&mut ")) or re.match(r"^&mut %s<" % re.escape(cx.toodee_path), norm_ty(ty))}
         self.datarefs = set()
+        _init_holders(self, cx, b)
         changed = True
         while changed:
             changed = False
@@ -213,9 +232,16 @@ class Fn:
                 if st["k"] != "assign" or st["p"]["proj"]:
                     continue
                 l = st["p"]["local"]
-                if l in self.datarefs:
+                if l in self.datarefs or l in self.holder_locals:
                     continue
                 rv = st["rv"]
+                if rv["k"] == "agg" and rv.get("agg") == "adt" and norm_ty(rv["adt"]) in cx.holders:
+                    fi_ = cx.holders[norm_ty(rv["adt"])]
+                    o_ = rv["fields"][fi_] if fi_ < len(rv["fields"]) else None
+                    if o_ and o_["k"] in ("copy", "move") and (o_["p"]["local"] in self.datarefs or self.is_data_place(o_["p"])):
+                        self.holder_locals[l] = fi_
+                        changed = True
+                    continue
                 src = None
                 if rv["k"] in ("ref", "rawptr"):
                     src = rv["p"]
@@ -233,6 +259,11 @@ class Fn:
         if p["local"] in self.toodee_locals:
             fs = [e for e in p["proj"] if e["k"] == "field"]
             return len(fs) == 1 and fs[0]["i"] == self.cx.DATA
+        # the `&mut Vec` field of a guard that holds the array's buffer (a local guard, or `self` in the guard's destructor)
+        hl = getattr(self, "holder_locals", {})
+        if p["local"] in hl:
+            fs = [e for e in p["proj"] if e["k"] == "field"]
+            return len(fs) == 1 and fs[0]["i"] == hl[p["local"]]
         return False
 
     def dim_field(self, p):
@@ -287,7 +318,7 @@ class Fn:
                 return False
             recv = t["args"][0] if t["args"] else None
             on_data = recv is not None and recv["k"] in ("copy", "move") and (recv["p"]["local"] in self.datarefs or self.is_data_place(recv["p"]))
-            if on_data and fn["path"].startswith("alloc::vec::Vec::<T, A>::") and fn["name"] in LEN_CHANGERS:
+            if on_data and (fn["path"].startswith("alloc::vec::Vec::<T, A>::") or (fn.get("trait") == "core::iter::Extend" and norm_ty(fn.get("self_ty") or "").startswith("alloc::vec::Vec<"))) and fn["name"] in LEN_CHANGERS:
                 return True
             if fn["path"] == "core::mem::swap":
                 for a in t["args"]:
@@ -363,7 +394,7 @@ class Fn:
         l, r, c = state
         recv = t["args"][0] if t["args"] else None
         on_data = recv is not None and recv["k"] in ("copy", "move") and (recv["p"]["local"] in self.datarefs or self.is_data_place(recv["p"]))
-        if on_data and fn["path"].startswith("alloc::vec::Vec::<T, A>::") and fn["name"] in LEN_CHANGERS:
+        if on_data and (fn["path"].startswith("alloc::vec::Vec::<T, A>::") or (fn.get("trait") == "core::iter::Extend" and norm_ty(fn.get("self_ty") or "").startswith("alloc::vec::Vec<"))) and fn["name"] in LEN_CHANGERS:
             if fn["name"] == "set_len":
                 l = self.classify_len_arg(t["args"][1])
             elif fn["name"] == "clear":
@@ -549,7 +580,7 @@ class Fn:
                         self.reports.append(("R-HIDE", "drop-in-place", "drops an element in place through a reference into the buffer while the Vec length is lowered (assignment `*slot = x` instead of ptr::write): the slot holds a bitwise copy of a live element", t["span"]))
                     if self.cx.term_may_unwind(t):
                         cands = [(s8, False)]
-                        if k == "call" and fn.get("name") in POST_STATE_UNWIND and self._is_write_term(t) and afters:
+                        if k == "call" and (fn.get("name") in POST_STATE_UNWIND or fn.get("name") in MIDWAY_UNWIND) and self._is_write_term(t) and afters:
                             cands = [(afters[0], False)]
                         if k == "call":
                             hb = self.cx.f.crate_fn_for_call(fn)
@@ -602,6 +633,7 @@ def is_shape_writer(cx, body, direct=False):
     fnx.d = Dfx(body)
     fnx.toodee_locals = {i for i, ty in enumerate(body.locals) if re.match(r"^&mut %s<" % re.escape(cx.toodee_path), norm_ty(ty))}
     fnx.datarefs = set()
+    _init_holders(fnx, cx, body)
     changed = True
     while changed:
         changed = False
@@ -609,9 +641,17 @@ def is_shape_writer(cx, body, direct=False):
             if st["k"] != "assign" or st["p"]["proj"]:
                 continue
             l = st["p"]["local"]
-            if l in fnx.datarefs:
+            if l in fnx.datarefs or l in fnx.holder_locals:
                 continue
             rv = st["rv"]
+            if rv["k"] == "agg" and rv.get("agg") == "adt" and norm_ty(rv["adt"]) in cx.holders:
+                fi_ = cx.holders[norm_ty(rv["adt"])]
+                o_ = rv["fields"][fi_] if fi_ < len(rv["fields"]) else None
+                if o_ and o_["k"] in ("copy", "move") and (o_["p"]["local"] in fnx.datarefs or fnx.is_data_place(o_["p"])):
+                    fnx.holder_locals[l] = fi_
+                    cx.live_holders.add(norm_ty(rv["adt"]))
+                    changed = True
+                continue
             src = rv["p"] if rv["k"] in ("ref", "rawptr") else (rv["o"]["p"] if rv["k"] == "use" and rv["o"]["k"] in ("copy", "move") else None)
             if src is None:
                 continue
@@ -662,6 +702,11 @@ def r_shape(f):
     """runs R-UNWIND, R-LEAK, R-LEAK-DRAIN, R-HIDE; returns one Result per rule"""
     _WRITER_MEMO.clear()
     cx = Ctx(f)
+    if cx.holders:
+        # first pass: find the guard types that are actually built around the array's buffer, then start afresh
+        for b0 in f.fn_bodies:
+            is_shape_writer(cx, b0, direct=True)
+        _WRITER_MEMO.clear()
     RU, RL, RD, RH = Result("R-UNWIND"), Result("R-LEAK"), Result("R-LEAK-DRAIN"), Result("R-HIDE")
     def exported(b):
         return b.kind != "Closure" and (b.d.get("vis") == "Public" or bool(b.impl_trait) or bool(b.trait_provided))
@@ -880,6 +925,23 @@ def r_shape(f):
                 continue
             bad = []
             steps = 0
+            # blocks that only run for element types without drop glue (`if mem::needs_drop::<T>() { .. return }`): skipping such
+            # elements loses nothing
+            dfx_ = Dfx(b)
+            dom_ = b.dominators()
+            nodrop_succ = []
+            for sb, bl in enumerate(b.blocks):
+                tt = bl["term"]
+                if bl["cleanup"] or not tt or tt["k"] != "switch":
+                    continue
+                e_ = strip(dfx_.expr(tt["discr"]))
+                neg_ = False
+                while e_[0] == "un" and e_[1] == "Not":
+                    neg_ = not neg_; e_ = strip(e_[2])
+                if e_[0] == "call" and e_[1] == "core::mem::needs_drop":
+                    tm_ = dict((int(a), b2) for a, b2 in tt["targets"])
+                    f_succ, t_succ = tm_.get(0, tt["otherwise"]), (tt["otherwise"] if 0 in tm_ else tm_.get(1))
+                    nodrop_succ.append(t_succ if neg_ else f_succ)
             for bi, t, fn in b.calls():
                 if not fn:
                     continue
@@ -891,10 +953,19 @@ def r_shape(f):
                     steps += 1
                 elif fn["name"] in ("size_hint", "len", "is_empty"):
                     pass
+                elif any(ns is not None and (ns == bi or ns in dom_.get(bi, set())) for ns in nodrop_succ):
+                    steps += 1          # a jump taken only when T has no drop glue; its result must still be read out
                 else:
                     bad.append((fn["name"], t["span"]))
-            # every step's result is read out with ptr::read in this body or its closures
-            reads = sum(1 for c in [b] + b.closures() for _, _, fn2 in c.calls() if fn2 and fn2["path"] in ("core::ptr::read", "core::ptr::const_ptr::<impl *const T>::read", "core::ptr::mut_ptr::<impl *mut T>::read"))
+            # every step's result is read out with ptr::read in this body, its closures, or a crate function handed to map()
+            READS = ("core::ptr::read", "core::ptr::const_ptr::<impl *const T>::read", "core::ptr::mut_ptr::<impl *mut T>::read")
+            reads = sum(1 for c in [b] + b.closures() for _, _, fn2 in c.calls() if fn2 and fn2["path"] in READS)
+            for _, t2, fn2 in b.calls():
+                for a in t2["args"]:
+                    if a["k"] == "const" and a.get("fn"):
+                        hb2 = f.crate_fn_for_call(a["fn"])
+                        if hb2 is not None and any(fn3 and fn3["path"] in READS for _, _, fn3 in hb2.calls()):
+                            reads += 1
             if steps or bad:
                 ok = not bad and reads >= steps
                 RS.inst(b.ident, "advances the embedded cursor only by single steps (%d) and reads out each stepped-over element (%d ptr::read)" % (steps, reads), ok)
@@ -970,6 +1041,22 @@ def r_shape(f):
             for a in t["args"]:
                 if a["k"] in ("copy", "move") and a["p"]["local"] in tainted:
                     bad.append((fn["name"], tainted[a["p"]["local"]], t["span"]))
+        # ... nor decide *whether* such a call happens
+        addr_blocks = [bi for bi, t, fn in b.calls() if fn and fn["name"] in ADDR]
+        for sb, bl in enumerate(b.blocks):
+            tt = bl["term"]
+            if bl["cleanup"] or not tt or tt["k"] != "switch" or tt["discr"]["k"] not in ("copy", "move") or tt["discr"]["p"]["local"] not in tainted:
+                continue
+            succs = set(b.succs(sb))
+            if len(succs) < 2:
+                continue
+            reach = {x: set(b.reachable(x)) for x in succs}
+            for ab in addr_blocks:
+                hit = [x for x in succs if ab in reach[x]]
+                if hit and len(hit) < len(succs):
+                    nm = [fn["name"] for bi, t, fn in b.calls() if bi == ab and fn][0]
+                    bad.append((nm + " (whether it runs)", tainted[tt["discr"]["p"]["local"]], tt.get("span") or b.d["span"]))
+                    break
         fname = {cx.ROWS: "num_rows", cx.COLS: "num_cols"}
         RT.inst(b.ident, "no buffer-addressing call (drain / rotate / index / pointer arithmetic) takes a dimension read after the function overwrote it (%d such reads, all feeding set_len products or comparisons only)" % nread, not bad)
         seen_b = set()
